@@ -18,6 +18,35 @@ def window_of(rq):
     return rq['reg'], rq['reg'] + rq['count'] - 1
 
 
+_FULL = {}
+
+
+def travelled_in(cfg, transport='udp'):
+    """{sensor id: (lo, hi) of the request window its registers travelled in} for the SAME model, rated power and battery
+    on an inverter that refuses nothing (second poll: the object has settled)."""
+    from .. import refdec
+    key = (cfg['family'], cfg['tag'], cfg['power'], cfg['battery_mode'], transport)
+    if key not in _FULL:
+        r = make_rig(dict(cfg, refused=()), transport)
+        out = {}
+        if r.call(r.inv.read_device_info)[0] == 'ok':
+            r.call(r.inv.read_runtime_data)
+            n0 = len(r.dev.log)
+            res = r.call(r.inv.read_runtime_data)
+            wins = [window_of(q) for q in r.dev.log[n0:] if q.get('fn') == 3]
+            if res[0] == 'ok':
+                for s in world.listed(r.inv):
+                    n = refdec.size_of(s)
+                    if not n or type(s).__name__ in ('Calculated', 'EnumCalculated') or s.id_ not in res[1]:
+                        continue
+                    for lo, hi in wins:
+                        if lo <= s.offset and s.offset + (n + 1) // 2 - 1 <= hi:
+                            out[s.id_] = (lo, hi)
+                            break
+        _FULL[key] = out
+    return _FULL[key]
+
+
 def run_config(cfg, transport='udp', calls=3):
     r = make_rig(cfg, transport)
     inv, dev = r.inv, r.dev
@@ -48,6 +77,14 @@ def run_config(cfg, transport='udp', calls=3):
             vio.append(('supported-present-at-every-call', f'call {j + 1} reported {sorted(prev - keys)[:3]} (+{len(prev - keys)}), '
                                                             f'call {i + 1} does not; new in call {i + 1}: {sorted(keys - prev)[:3]}'))
         keysets.append((i, keys))
+        if cfg['family'] in ('ET', 'DT') and cfg['refused'] and i == calls - 1:
+            # "supported ones are all present": a sensor whose block - the request window it travels in on an inverter that
+            # refuses nothing - does not touch any refused register is still reported by this (settled) object
+            full = travelled_in(cfg, transport)
+            gone = sorted(sid for sid, (lo, hi) in full.items() if sid not in keys and not dev.is_refused(lo, hi - lo + 1))
+            if gone:
+                vio.append(('supported-block-present', f'call {i + 1}: {len(gone)} ids of blocks the inverter serves are missing, e.g. {gone[:3]} '
+                                                       f'(refused: {list(cfg["refused"])})'))
         ids = {s.id_ for s in world.listed(inv)}
         if keys != ids:
             extra = sorted(keys - ids)[:4]
